@@ -202,8 +202,23 @@ def check(repo: Repo, run: Run) -> None:
     # ------------------------------------------------------------------ R2 shared tables
     tp_t, pn_t = T("attr", (SELF, "threads_pids")), T("attr", (SELF, "pids_names"))
     init = interp.run(pk.module, pk.methods["__init__"], self_cls=pk)
+    def _class_template(v: T) -> bool:
+        """self.<name> read while the instance has no such attribute yet: the class-level `name = {}` of the same class."""
+        if not (v.op == "attr" and v.a[0] == SELF):
+            return False
+        import ast as _a
+        for st in pk.node.body:
+            tg = st.targets[0] if isinstance(st, _a.Assign) and len(st.targets) == 1 else st.target if isinstance(st, _a.AnnAssign) else None
+            val = getattr(st, "value", None)
+            if isinstance(tg, _a.Name) and tg.id == v.a[1] and val is not None:
+                return (isinstance(val, _a.Dict) and not val.keys) or (
+                    isinstance(val, _a.Call) and isinstance(val.func, _a.Name) and val.func.id == "dict" and not val.args and not val.keywords)
+        return False
+
     def _empty_dict(v: T) -> bool:
-        return (v.op == "dict" and not v.a[0]) or (v.op == "call" and v.a[0] == T("builtin", ("dict",)) and not v.a[1] and not v.a[2])
+        # {} / dict() / dict(<the empty class-level template>): an object of the instance's own, empty
+        return (v.op == "dict" and not v.a[0]) or (v.op == "call" and v.a[0] == T("builtin", ("dict",)) and not v.a[2] and (
+            not v.a[1] or (len(v.a[1]) == 1 and _class_template(v.a[1][0]))))
     stores = [e for e in init.effects if e.kind == "attr-store" and (e.path or e.base) == SELF and e.value is not None
               and _empty_dict(e.value) and not e.pc and e.alias is None]
     fresh = {e.key for e in stores}
